@@ -743,6 +743,11 @@ class CompositeEnvelopeContainer:
             Other composite envelope container
         """
         assert isinstance(other, CompositeEnvelopeContainer)
+        if other is self:
+            return
+        for state in other.states:
+            # The product states now belong to this container
+            state.container = self
         self.states.extend(other.states)
         self.envelopes.extend(other.envelopes)
 
@@ -835,6 +840,8 @@ class CompositeEnvelope:
             CompositeEnvelope._instances[self.uid] = []
         CompositeEnvelope._instances[self.uid].append(self)
         self.update_composite_envelope_pointers()
+        # Product states taken over from merged containers change their position
+        ce_container.update_all_indices()
 
     def __repr__(self) -> str:
         return (
